@@ -98,6 +98,16 @@ func runC15(env *core.Env) {
 	fx := NewFix(env, w0)
 	e1, e2 := fx.NewEpic("E1"), fx.NewEpic("E2")
 	root := fx.Store()
+	// a second root: epics D <- E <- F (E depends on D, F on E), one task in D and one in F; three tasks allowed there
+	fx3 := NewFix(env, w0)
+	dEp, eEp, fEp := fx3.NewEpic("D"), fx3.NewEpic("E"), fx3.NewEpic("F")
+	fx3.NewTask(map[string]interface{}{"title": "d", "epic": dEp})
+	fx3.NewTask(map[string]interface{}{"title": "f", "epic": fEp})
+	fx3.Must(core.R("", "sequence", dEp, eEp))
+	fx3.Must(core.R("", "sequence", eEp, fEp))
+	chainRoot := fx3.Store()
+	chainKey := core.CanonLog(chainRoot.Log())
+	fromChain := func(n *Node) bool { return core.CanonLog(rootOfNode(n).Log()) == chainKey }
 	maxTasks := 2
 	if env.Thorough() {
 		maxTasks = 3
@@ -115,7 +125,14 @@ func runC15(env *core.Env) {
 			epics = append(epics, e.ID)
 		}
 		var out []core.Req
-		if len(tasks) < maxTasks {
+		limit := maxTasks
+		if fromChain(n) {
+			if n.Depth >= 3 {
+				return nil // the chain root is explored to depth 3
+			}
+			limit = 3
+		}
+		if len(tasks) < limit {
 			out = append(out, core.R("", "--json", "new", "task").In(`{"title":"t"}`))
 			for _, e := range epics {
 				out = append(out, core.R("", "--json", "new", "task").In(jsonStr(map[string]string{"title": "t", "epic": e})))
@@ -148,13 +165,13 @@ func runC15(env *core.Env) {
 	}
 	var checked, progressStates, stuck, cyclic int64
 	samples := &sampleSet{max: 8}
-	b := &BFS{Env: env, Roots: []core.Store{root}, KeyFn: graphKey, Ops: gen, MaxStates: 150000}
+	b := &BFS{Env: env, Roots: []core.Store{root, chainRoot}, KeyFn: graphKey, Ops: gen, MaxStates: 150000}
 	b.Conf = newConformer(100, 300)
 	b.OnState = func(w *core.Worker, n *Node) {
 		obs := n.Aux.(core.Obs)
 		atomic.AddInt64(&checked, 1)
 		if obs.Fail != "" {
-			report(env, "C15 kind=store-unreadable", obs.Fail, mkTrace(root, "reads fail", n.Path, Assert{Kind: "read_fails", Step: len(n.Path)}))
+			report(env, "C15 kind=store-unreadable", obs.Fail, mkTrace(rootOfNode(n), "reads fail", n.Path, Assert{Kind: "read_fails", Step: len(n.Path)}))
 			return
 		}
 		last := "initial"
@@ -186,7 +203,7 @@ func runC15(env *core.Env) {
 				cls = "with-inherited-epic-edge"
 			}
 			report(env, fmt.Sprintf("C15 kind=waits-for-cycle %s closed-by=%s", cls, last), fmt.Sprintf("waits-for cycle %v (%d inherited edges) after %v", cyc, nInh, n.Shell()),
-				mkTrace(root, "effective waits-for relation has a cycle", n.Path, Assert{Kind: "has_waits_for_cycle", Step: len(n.Path)}))
+				mkTrace(rootOfNode(n), "effective waits-for relation has a cycle", n.Path, Assert{Kind: "has_waits_for_cycle", Step: len(n.Path)}))
 		}
 	progress:
 		// progress: some todo, none doing/blocked/error => something is ready and claim does not say no_ready
@@ -220,7 +237,7 @@ func runC15(env *core.Env) {
 				}
 				steps := append(append([]core.Req{}, n.Path...), core.R("", "--json", "claim", "--agent", "z"))
 				report(env, "C15 kind=no-progress cause="+cause, fmt.Sprintf("%d todo tasks, none doing/blocked/error, ready=%d, claim says %q after %v", todo, ready, strings.TrimSpace(string(res.Out)), n.Shell()),
-					mkTrace(root, "unfinished work, nothing held, nothing ready", steps, Assert{Kind: "out_contains", Step: len(steps), Text: "no_ready"}))
+					mkTrace(rootOfNode(n), "unfinished work, nothing held, nothing ready", steps, Assert{Kind: "out_contains", Step: len(steps), Text: "no_ready"}))
 			}
 		}
 		if n.Depth > 0 && n.Depth%2 == 0 {
@@ -234,6 +251,7 @@ func runC15(env *core.Env) {
 		"exhaustive": b.Exhaustive, "cap_hit": b.CapHit, "bfs_depth": b.DepthDone, "states_checked": checked,
 		"states_where_progress_is_required": progressStates, "stuck_states": stuck, "states_with_waits_for_cycle": cyclic,
 		"unconfirmed_candidates": unconfirmed.Load(),
+		"second_root":            "epics D<-E<-F with a task in D and in F, <=3 tasks, depth 3",
 		"bound":                  fmt.Sprintf("2 epics (thorough: +1 via plan), <=%d tasks; new task (root/in epic), set epic, sequence and sequence rm on every task pair and epic pair, done/todo, prune, plan; BFS to fixpoint on the canonical graph", maxTasks),
 	}, []string{"state key = canonical labelled graph"})
 	_, _ = e1, e2
